@@ -1,6 +1,7 @@
 package main
 
 import (
+	"fmt"
 	"go/token"
 	"go/types"
 	"golang.org/x/tools/go/ssa"
@@ -317,6 +318,79 @@ func runC11(c *Ctx) {
 		c.Floor("R5.ownreply", nConn, 1, "reads of the upstream connection field")
 	}
 
+	// ... and the underlying agent stays behind the server's mutex: its value is only ever called on the spot (by the
+	// operations, which hold the lock); it is not stored into another object, returned or captured - a signer holding
+	// the agent itself signs without the lock and its request crosses the others on the one connection
+	{
+		nUse, nBad := 0, 0
+		var follow func(fn *ssa.Function, v ssa.Value, depth int)
+		seenV := map[ssa.Value]bool{}
+		follow = func(fn *ssa.Function, v ssa.Value, depth int) {
+			if v == nil || seenV[v] || depth > 4 || v.Referrers() == nil {
+				return
+			}
+			seenV[v] = true
+			for _, r := range *v.Referrers() {
+				switch u := r.(type) {
+				case *ssa.DebugRef:
+				case ssa.CallInstruction:
+					cm := u.Common()
+					if cm.IsInvoke() && cm.Value == v {
+						nUse++
+						continue
+					}
+					if b, isB := cm.Value.(*ssa.Builtin); isB && (b.Name() == "len" || b.Name() == "print") {
+						continue
+					}
+					if callee := cm.StaticCallee(); callee != nil && w.InRepo(callee) && len(callee.Blocks) > 0 {
+						for k, a := range cm.Args {
+							if a == v && k < len(callee.Params) {
+								nUse++
+								follow(callee, callee.Params[k], depth+1)
+							}
+						}
+						continue
+					}
+					if cm.Value == v {
+						continue // called as a function value
+					}
+					nBad++
+					c.Bad("R1.lockset", shortFn(fn)+"|underlying agent handed to "+shortName(calleeName(u)), w.Pos(u.Pos()), "the underlying agent's value leaves the server (argument of a call outside the repository): it can be used without the mutex")
+				case *ssa.TypeAssert, *ssa.ChangeInterface, *ssa.ChangeType, *ssa.Extract, *ssa.Phi:
+					follow(fn, u.(ssa.Value), depth)
+				case *ssa.BinOp, *ssa.If, *ssa.UnOp:
+					// compared with nil / tested
+				case *ssa.MakeClosure:
+					// a bound method value: followed to where it is called or handed over
+					follow(fn, u, depth)
+				case *ssa.MakeInterface:
+					follow(fn, u, depth)
+				default:
+					nBad++
+					c.Bad("R1.lockset", shortFn(fn)+"|underlying agent kept outside the server", w.Pos(r.Pos()), "the underlying agent's value is stored, returned or captured ("+strings.TrimPrefix(fmt.Sprintf("%T", r), "*ssa.")+"): whoever holds it can call the agent without the server's mutex, and its exchange crosses the others on the single upstream connection")
+				}
+			}
+		}
+		for _, fn := range w.FuncsOfPkg(shimPkg) {
+			for _, b := range fn.Blocks {
+				for _, ins := range b.Instrs {
+					ld, ok := ins.(*ssa.UnOp)
+					if !ok || ld.Op != token.MUL {
+						continue
+					}
+					fa, ok := ld.X.(*ssa.FieldAddr)
+					if !ok || !isFieldOf(fa.X.Type(), m.Owner(m.fAgent), m.fAgent, fa.Field) {
+						continue
+					}
+					follow(fn, ld, 0)
+				}
+			}
+		}
+		if nBad == 0 {
+			c.Ok("R1.lockset", "Server|underlying agent only called in place", w.Pos(m.Server.Obj().Pos()), itoa(nUse)+" uses of the agent field: invoked, asserted, compared, or handed to repository helpers that do the same")
+		}
+		c.Floor("R1.lockset", nUse, 8, "uses of the underlying agent field")
+	}
 	// ... and a frame handed to an operation is memory of its own: what an operation keeps in the shared tables (a
 	// certificate parsed from the request) must not alias a buffer that the connection's loop overwrites with the next
 	// request outside the server's mutex
